@@ -1,7 +1,7 @@
 """Per-property metadata used by ./check for evidence files and MANIFEST.json."""
 
 HOOK_COMMITS = []
-FIX_COMMITS = ['0a1810c', 'a823fe8', '611b765', '43d434c', 'bd77cd5', '75ae538', '463f78f']
+FIX_COMMITS = ['0a1810c', 'a823fe8', '611b765', '43d434c', 'bd77cd5', '75ae538', '463f78f', '94ec477']
 
 REAL = ["nhooyr.io/websocket (all non-js code, both endpoints where libpair)", "bufio", "compress/flate", "context", "time (fake clock from testing/synctest)"]
 STUB = ["transport (simrt.simnet)", "handshake plumbing (fake RoundTripper / hijacker, no bytes on the wire)"]
@@ -61,6 +61,15 @@ META = {
         rule="enumerated: forced tape prefix (role, adversary, stall offset k / echo delay, local state, call); random part draws the same dimensions plus compression, a delay before the call and scheduler stickiness. Non-trivial = every run (an adversary is always active); distinct = distinct event-log SHA-256.",
         exhaustive="adversary x stall offset x local state x call x role (thorough tier)",
         real=REAL, stub=STUB + RAW, assumptions=COMMON_ASSUME,
+    ),
+    "C16": dict(
+        level="exploration",
+        level_text="Seeded simulation of one real endpoint with 0-3 writers (Write / two-chunk Writer) and a pinger kept busy behind a back-pressured transport, and one of 7 close triggers (local Close, peer Close, protocol violation, read-limit overflow, CloseRead receiving data, NetConn wrong type, wsjson bad JSON) fired at a drawn scheduler step, with the peer echoing at once, late or never and optionally sending data after its own Close. The complete frame trace recorded by the raw peer is scanned: after the first Close frame no text/binary/continuation frame and no second Close frame. Sampling of schedules, not proof.",
+        level_note="Ping/Pong after Close are not data frames and are not flagged. Trusts the reference frame parser.",
+        technique="deterministic simulation: seeded interleaving of writers/pingers with a close trigger, wire-trace oracle at the scripted peer",
+        design_ref="DESIGN.md 6 C16",
+        rule="run = one tape: (role, negotiation, trigger kind, echo policy, number of writers/pingers, message size, Write vs Writer, pipe capacity and write chunking, firing step, schedule). Non-trivial = every run; distinct = distinct event-log SHA-256.",
+        real=REAL + ["wsjson", "NetConn adapter"], stub=STUB + RAW, assumptions=COMMON_ASSUME,
     ),
 }
 
